@@ -142,6 +142,7 @@ type Plan struct {
 	Schedule   []Quantum `json:"schedule,omitempty"`
 	Strategy   string    `json:"strategy,omitempty"`
 	Order      string    `json:"order,omitempty"`                     // "" = run-alone reference first; "concurrent-first" = scheduled run first (process-wide state still cold), reference afterwards
+	Procs      int       `json:"gomaxprocs,omitempty"`                // GOMAXPROCS for this plan: with one P every goroutine shares the same sync.Pool slots (maximal reuse), with many they rarely meet
 	ParkInCrit bool      `json:"park_in_critical_sections,omitempty"` // allow preemption lexically inside Lock()...Unlock() (risks deadlock, see verifrt.Crit)
 	FpEvery    bool      `json:"fp_every_switch,omitempty"`
 }
